@@ -1,5 +1,6 @@
 import KinModel.Drv.Util
 import KinModel.Response
+import KinModel.ResponseReg
 open Lean
 namespace KinModel.Drv.C08
 open KinModel.Drv KinModel.Response
@@ -51,11 +52,42 @@ def parseDec (j : Json) : Dec :=
   match getStr j "k" with
   | "val" => .val (parseJ (getD j "v" .null))
   | "nil" => .nil
+  | "panic" => .panic
   | _ => .err
 
 def parseHdr (j : Json) : Hdr :=
   { name := getStr j "name", required := getBool j "required", schema := parseOSch j "schema",
-    dec := parseDec (getD j "dec" .null) }
+    explode := getBool j "explode", emptyNameDec := parseDec (getD j "dec" .null) }
+
+mutual
+partial def jOfJ : J → Json
+  | .null => .null
+  | .bool b => .bool b
+  | .num n => .num (JsonNumber.fromInt n)
+  | .str s => .str s
+  | .arr xs => .arr (jlOf xs).toArray
+  | .obj kvs => Json.mkObj (kvsOf kvs)
+partial def jlOf : JL → List Json
+  | .nil => []
+  | .cons x r => jOfJ x :: jlOf r
+partial def kvsOf : KVs → List (String × Json)
+  | .nil => []
+  | .cons k v r => (k, jOfJ v) :: kvsOf r
+end
+
+def decJson : Dec → Json
+  | .err => jobj [("k", "err")]
+  | .nil => jobj [("k", "nil")]
+  | .panic => jobj [("k", "panic")]
+  | .val v => jobj [("k", "val"), ("v", jOfJ v)]
+
+def decBranch (s : Sch) : Dec → List String
+  | .err => ["dec.err"]
+  | .nil => ["dec.nil"]
+  | .panic => ["dec.panic"]
+  | .val _ => match s.core.ty with
+    | .integer => ["dec.int"] | .boolean => ["dec.bool"] | .string => ["dec.str"]
+    | .array => ["dec.arr"] | .object => ["dec.obj"] | .any => []
 
 def parseResp (j : Json) : String × Resp :=
   (getStr j "key",
@@ -64,12 +96,12 @@ def parseResp (j : Json) : String × Resp :=
 
 def errStr : Err → String
   | .statusNotSupported => "status" | .hdrMissing n => "hdrMissing:" ++ n | .hdrDecode n => "hdrDecode:" ++ n
-  | .hdrSchema n => "hdrSchema:" ++ n | .ctUndeclared => "ct" | .bodyRead => "bodyRead"
+  | .hdrSchema n => "hdrSchema:" ++ n | .hdrPanic _ => "panic" | .ctUndeclared => "ct" | .bodyRead => "bodyRead"
   | .bodyDecode => "bodyDecode" | .bodySchema => "bodySchema"
 
 def errBranch : Err → String
   | .statusNotSupported => "err.status" | .hdrMissing _ => "err.hdrMissing" | .hdrDecode _ => "err.hdrDecode"
-  | .hdrSchema _ => "err.hdrSchema" | .ctUndeclared => "err.ct" | .bodyRead => "err.bodyRead"
+  | .hdrSchema _ => "err.hdrSchema" | .hdrPanic _ => "err.hdrPanic" | .ctUndeclared => "err.ct" | .bodyRead => "err.bodyRead"
   | .bodyDecode => "err.bodyDecode" | .bodySchema => "err.bodySchema"
 
 /-- which key selected the response entry -/
@@ -107,11 +139,17 @@ def handle (j : Json) : Json :=
     hdrs := (getArr j "hdrs").map (fun p => match p with
       | .arr a => (asStr (a.getD 0 .null), asStr (a.getD 1 .null)) | _ => ("", "")),
     body := getStr j "body", readFails := getBool j "readFails", bodyDec := parseDec (getD j "bodyDec" .null) }
-  let out := validateResponse canon o i
-  let spec := acceptB canon o i
+  let out := validateResponse canon genReg o i
+  let spec := acceptB canon genReg o i
+  -- what the model's header decoder makes of every declared, schema-described header that the response carries
+  -- (compared with the real decoder on every case)
+  let hdrDecs : List Json := i.responses.flatMap (fun kr =>
+    kr.2.headers.filterMap (fun h => match hdrDec canon i.hdrs h with
+      | some d => some (Json.arr #[Json.str (kr.1 ++ "/" ++ h.name), decJson d])
+      | none => none))
   let excl :=
     (if HdrDecodedNil canon i then ["HdrDecodedNil"] else []) ++
-    (if HdrNotAsResponse canon i then ["HdrNotAsResponse"] else []) ++
+    (if HdrArrayNoItems canon i then ["HdrArrayNoItems"] else []) ++
     (if EmptyMapStrict o i then ["EmptyMapStrict"] else [])
   let skipped := skippedB i
   let sel := if skipped || i.responses.isEmpty then none else statusLookup i.responses i.status
@@ -132,6 +170,19 @@ def handle (j : Json) : Json :=
        (if r.headers.any (fun h => h.required && !present canon i.hdrs h) then ["hdr.required_absent"] else []) ++
        (if r.headers.any (fun h => !h.required && !present canon i.hdrs h) then ["hdr.optional_absent"] else []) ++
        (if (checkedHeaders r).length > 1 then ["hdr.many"] else []) ++
+       ((checkedHeaders r).flatMap (fun h => match h.schema, hdrDec canon i.hdrs h with
+          | some s, some d =>
+            decBranch s d ++ (if h.explode then ["hdr.explode"] else []) ++
+            (match s.core.ty, lookup (canon h.name) i.hdrs with
+             | .object, some raw =>
+               (match propsFromString h.explode raw with
+                | some pairs => if emptyNameCorner s pairs then ["dec.empty_name_corner"] else []
+                | none => ["dec.obj_malformed"])
+             | _, _ => []) ++
+            (match d with
+             | .val v => if visit ⟨true, o.woOff⟩ v s != visit ⟨false, o.woOff⟩ v s then ["hdr.asrep_matters"] else []
+             | _ => [])
+          | _, _ => [])).eraseDups ++
        (if (firstErr (checkHeader canon o.woOff i.hdrs) (checkedHeaders r)).isSome then [] else
          (if o.excludeBody then ["opt.exb"] else
           if r.content.isEmpty then ["content.empty"] else
@@ -142,14 +193,18 @@ def handle (j : Json) : Json :=
                | none => ["mt.noschema"]
                | some s =>
                  (if o.woOff then ["opt.wooff"] else []) ++ (schFlags s).eraseDups ++
-                 (match i.bodyDec with
+                 (match lookup (parseMediaType (ctOf i)) genReg with
+                  | none => ["body.unregistered"]
+                  | some d => if textDecoder d then ["body.text"] else []) ++
+                 (match decodeBody genReg i with
                   | .val v =>
                     (if visit ⟨true, o.woOff⟩ v s != visit ⟨false, o.woOff⟩ v s then ["body.asrep_matters"] else []) ++
                     (if visit ⟨true, true⟩ v s != visit ⟨true, false⟩ v s then ["body.wo_present"] else [])
                   | _ => [])))))
   jobj [
     ("model", jobj [("err", match out.err with | some e => Json.str (errStr e) | none => Json.null),
-                    ("bodyAfter", match out.bodyAfter with | some b => Json.str b | none => Json.null)]),
+                    ("bodyAfter", match out.bodyAfter with | some b => Json.str b | none => Json.null),
+                    ("hdrDec", Json.arr hdrDecs.toArray)]),
     ("spec", jobj [("accept", Json.bool spec),
                    ("bodyAfter", if i.readFails then Json.null else Json.str i.body)]),
     ("excl", jstrs excl),
